@@ -32,3 +32,4 @@ import LapyVerif.Bridge.CurvTria
 #print axioms LapyVerif.Bridge.curv_tria_umax
 #print axioms LapyVerif.Bridge.curv_tria_c
 #print axioms LapyVerif.Bridge.curv_tria_smooth
+#print axioms LapyVerif.Bridge.census_CurvTria_pcCount
